@@ -198,7 +198,7 @@ func runC15(c *core.Ctx) {
 	nk := uint64(gen.NumXRKinds)
 	seqs := 1 + nk + nk*nk + nk*nk*nk
 	c.Exhaustive("all orders of the 8 block kinds for k <= 3", seqs)
-	c.Section("orders", seqs*c.N(60, 1500), func(cs *core.Case) {
+	c.Section("orders", seqs*c.N(60, 8000), func(cs *core.Case) {
 		x := cs.Idx % seqs
 		var kinds []gen.XRKind
 		switch {
@@ -221,7 +221,7 @@ func runC15(c *core.Ctx) {
 		c15Judge(cs, xr)
 	})
 	// (2) random sequences up to 8
-	c.Section("random", c.N(60000, 3000000), func(cs *core.Case) {
+	c.Section("random", c.N(60000, 15000000), func(cs *core.Case) {
 		r := cs.R
 		xr := &rtcp.ExtendedReport{SenderSSRC: r.B32()}
 		unaligned := r.Chance(1, 12)
